@@ -79,7 +79,7 @@ def run(ctx: Ctx):
     pstraces = []
     for mi in range(nmodels):
         model = {"end_t": ctx.rng.choice([4, 6]), "warm_t": ctx.rng.choice([0, 1, 2]), "maxev": ctx.rng.choice([12, 20, 30]),
-                 "listeners": ctx.rng.choice([5, 6, 8]), "replication_nr": ctx.rng.choice([0, 1, 1]), "tc_listener": mi % 2 == 0, "conc": dd.CONCS_OFF[mi % len(dd.CONCS_OFF)]}
+                 "listeners": ctx.rng.choice([5, 6, 8]), "replication_nr": ctx.rng.choice([0, 1, 1]), "tc_listener": mi % 2 == 0, "conc": dd.CONCS_OFF_BASE[mi % len(dd.CONCS_OFF_BASE)]}
         pl = plans(ctx.rng, nchildren, model)
         res = run_children(pl)
         trace = []
